@@ -132,6 +132,7 @@ class Recorder:
         self.failures = {}      # bucket -> dict(count, case(json str), message)
         self.harness_errors = []
         self.extra = collections.Counter()
+        self.inflight = None
 
     # -- generic per-case path ------------------------------------------------
     def evaluate(self, case):
@@ -146,6 +147,9 @@ class Recorder:
             raise HarnessError('classifier failed')
         violation = None
         info = None
+        if self.inflight:
+            with open(self.inflight, 'w') as f:
+                f.write(self.canon.dumps(case))
         try:
             info = comp.check(case)
         except Violation as v:
@@ -244,6 +248,8 @@ def run_task(args):
         mod = importlib.import_module(modname)
         comp = mod.COMPONENTS[comp_idx]
         rec = Recorder(comp)
+        if getattr(mod, 'WORKER_DEATH_IS_VIOLATION', False):
+            rec.inflight = inflight_path(os.getpid())
         signal.signal(signal.SIGALRM, _alarm)
         watchdog = int(os.environ.get('VERIF_TASK_TIMEOUT',
                                       '900' if tier == 'quick' else '14400'))
@@ -271,6 +277,82 @@ def run_task(args):
                 'nontrivial_count': 0, 'digests': set(), 'classes': {},
                 'samples': [], 'failures': {}, 'extra': {},
                 'harness_errors': [traceback.format_exc()]}
+
+
+def _child(conn, task):
+    try:
+        conn.send(run_task(task))
+    finally:
+        conn.close()
+
+
+def run_tasks(tasks, nproc, mod):
+    """Run tasks in forked worker processes (one process per task); a worker that dies
+    without delivering a result is reported, never waited for."""
+    import multiprocessing.connection as mpc
+    ctx = multiprocessing.get_context('fork')
+    pending = list(tasks)
+    running = {}
+    results = []
+
+    def dead(task, proc):
+        comp = mod.COMPONENTS[task[1]]
+        r = {'component': comp.name, 'evaluations': 0, 'nontrivial_count': 0,
+             'digests': set(), 'classes': {}, 'samples': [], 'failures': {},
+             'extra': {}, 'harness_errors': []}
+        path = inflight_path(proc.pid)
+        case_text = None
+        if os.path.exists(path):
+            with open(path) as f:
+                case_text = f.read()
+            os.unlink(path)
+        if case_text and getattr(mod, 'WORKER_DEATH_IS_VIOLATION', False):
+            r['failures']['worker-died:exit=%s' % proc.exitcode] = {
+                'count': 1, 'case': case_text,
+                'message': 'worker process died (exit code %s) while evaluating '
+                           'this case' % proc.exitcode}
+        else:
+            r['harness_errors'].append(
+                'worker for %s shard %d died with exit code %s' %
+                (comp.name, task[2], proc.exitcode))
+        return r
+
+    while pending or running:
+        while pending and len(running) < nproc:
+            t = pending.pop(0)
+            parent, child = ctx.Pipe(duplex=False)
+            p = ctx.Process(target=_child, args=(child, t))
+            p.start()
+            child.close()
+            running[p] = (parent, t)
+        mpc.wait([c for c, _ in running.values()] +
+                 [p.sentinel for p in running], timeout=5)
+        for p in list(running):
+            conn, t = running[p]
+            got = None
+            if conn.poll():
+                try:
+                    got = conn.recv()
+                except (EOFError, OSError):
+                    got = None
+                p.join()
+                results.append(got if got is not None else dead(t, p))
+            elif not p.is_alive():
+                p.join()
+                results.append(dead(t, p))
+            else:
+                continue
+            conn.close()
+            del running[p]
+            path = inflight_path(p.pid)
+            if os.path.exists(path):
+                os.unlink(path)
+    return results
+
+
+def inflight_path(pid):
+    base = '/dev/shm' if os.path.isdir('/dev/shm') else '/tmp'
+    return os.path.join(base, 'pamqp-verif-inflight-%d' % pid)
 
 
 def _is_known(bucket, known_patterns):
@@ -409,11 +491,7 @@ def main(argv=None):
         for sh in range(ns):
             tasks.append((modname, ci, sh, ns, a.tier, seed, known_patterns,
                           shrink_s))
-    ctx = multiprocessing.get_context('fork')
-    results = []
-    with ctx.Pool(min(NCPU, max(1, len(tasks))), maxtasksperchild=1) as pool:
-        for r in pool.imap_unordered(run_task, tasks, chunksize=1):
-            results.append(r)
+    results = run_tasks(tasks, min(NCPU, max(1, len(tasks))), mod)
 
     # ---- merge
     per = collections.OrderedDict()
